@@ -497,6 +497,8 @@ def _str_method(ex, s, name, args, kwargs):
             for x in a.t[1:]: r = z3.Concat(r, t, x.t)
             return V(TStr, r)
         return V(TStr, ex.vf.str_join(ex, t, a))
+    if name == 'encode' and 'utf8' in ex.w.ufuncs:      # the sidecar distinguishes bytes from characters: an uninterpreted encoding function
+        return call_spec(ex, 'utf8', [s], {}, None)
     if name == 'encode' and not args:
         ex.vf.note_assumption('str.encode() modelled as the identity on code points (exact for ASCII text)')
         return V(TBytes, t)
@@ -529,6 +531,8 @@ def _seq_method(ex, bm, recv, name, args, kwargs):
         other = args[0] if isinstance(args[0], V) else ex.materialize(args[0])
         if isinstance(other.ty, TOpt): other = ex.co(other, other.ty.inner)      # extending with None raises TypeError
         ex.assign(bm.recv_node, ex.seq_concat(recv, other)); return NONE
+    if name == 'pop' and args and z3.is_int_value(z3.simplify(coerce(args[0], TInt).t)) and z3.simplify(coerce(args[0], TInt).t).as_long() == 0:
+        return _seq_method(ex, bm, recv, 'popleft', [], {})      # list.pop(0)
     if name == 'pop':
         if args: raise Unsupported('list.pop(i)')
         if ex.branch(ln == 0, exceptional=True): ex.raise_exc('IndexError')
@@ -635,9 +639,9 @@ def setitem(ex, recv, k, v):
         mem = T.omap_member(recv, kt)
         return V(ty, (n + z3.If(mem, 0, 1), z3.If(mem, ks, z3.Store(ks, n, kt)), z3.If(mem, pos, z3.Store(pos, kt, n)), z3.Store(val, kt, pack(ex.co(v, ty.v)))))
     if isinstance(ty, TMap):
-        kt = pack(coerce(k, ty.k)); dom, val, card = recv.t
+        kt = pack(ex.co(k, ty.k)); dom, val, card = recv.t
         d2, c2, fct = T.set_update(dom, card, kt, True); ex.assume(fct)
-        return V(ty, (d2, z3.Store(val, kt, pack(coerce(v, ty.v))), c2))
+        return V(ty, (d2, z3.Store(val, kt, pack(ex.co(v, ty.v))), c2))
     if isinstance(ty, TSeq):
         i = coerce(k, TInt).t; ln = recv.t[0]
         if ex.branch(z3.Or(i >= ln, i < -ln), exceptional=True): ex.raise_exc('IndexError')
@@ -651,7 +655,7 @@ def map_del(ex, recv, k, strict):
         if strict and ex.branch(z3.Not(T.omap_member(recv, kt)), exceptional=True): ex.raise_exc('KeyError')
         return omap_pop(ex, recv, kt)
     if not isinstance(ty, TMap): raise Unsupported('del on %r' % ty)
-    kt = pack(coerce(k, ty.k)); dom, val, card = recv.t
+    kt = pack(ex.co(k, ty.k)); dom, val, card = recv.t
     if strict and ex.branch(z3.Not(z3.Select(dom, kt)), exceptional=True): ex.raise_exc('KeyError')
     d2, c2, fct = T.set_update(dom, card, kt, False); ex.assume(fct)
     return V(ty, (d2, val, c2))
